@@ -144,7 +144,7 @@ impl C09 {
             for &q in &heights {
                 let via_at = g.via_helper(|c, qq| c.is_member(qq, &addr, Some(q)));
                 let want_at = m.member_at(a, q);
-                if !h.check(via_at == Some(want_at), &format!("C09/group/{site}/package-helper-member-at-height-differs"), || format!("Cw4Contract::is_member({a}, {q})={via_at:?}, history says {want_at:?}")) {
+                if !h.check(via_at == Some(want_at), &format!("C09/group/{site}/package-helper-member-at-height-differs"), || format!("Cw4Contract::is_member({a}, {q}) = {}, history says {want_at:?}", via_at.map(|x| format!("{x:?}")).unwrap_or_else(|| "no answer (the helper failed or aborted)".into()))) {
                     return false;
                 }
                 let got = match g.member(a, Some(q)) {
